@@ -236,3 +236,24 @@ Definition finishing_op (s : sys) (o : op) : option fin :=
 Definition iter_none_step (W H : N) (fails : N -> bool) (s : sys) (now : N) (b : N)
   : sys * list termop * bool :=
   if finished (get_bar s b) then (s, [], true) else step W H fails s now (OFinishUsingStyle b).
+
+(* ------------------------------------------------------------------ added in round 4: iterator consumers *)
+From Coq Require Import String.
+(* The AUDITED table of what src/iter.rs implements itself for ProgressBarIter (compared with the
+   table tools/iter_extract.py generates from the source, gen/IterOverrides.v).  Every other
+   consumer of the std traits (for loops, for_each, fold, try_fold, count, sum, product, last,
+   min/max(_by(_key)), nth, advance_by, collect, position, all/any/find, ..., and on the
+   double-ended side rfold, try_rfold, nth_back, rfind, rev) is std's DEFAULT method, which sees
+   the end of the iteration only by getting None from [next] (resp. [next_back]). *)
+Definition audited_iter_overrides : list (string * option (list string)) :=
+  [("Iterator", Some ["next"; "size_hint"]);
+   ("DoubleEndedIterator", Some ["next_back"]);
+   ("ExactSizeIterator", Some ["len"]);
+   ("FusedIterator", Some [])]%string.
+
+(* the methods through which a consumer can observe exhaustion *)
+Definition exhaustion_methods (tbl : list (string * option (list string))) : list string :=
+  List.filter (fun m => negb (String.eqb m "size_hint" || String.eqb m "len"))%string
+         (List.concat (List.map (fun x => match snd x with Some l => l | None => [] end) tbl)).
+
+Definition audited_exhaustion_methods : list string := ["next"; "next_back"]%string.
